@@ -167,6 +167,9 @@ func genC15(t *Tape) *c15Scenario {
 	// invalidity dates of the TSA chain's revocation entries lie in the future
 	// of the signing time: the TSA check must not be made "as of" that time
 	w.InvBase = Epoch.Add(2 * time.Hour)
+	// an authority certificate that carries its name in a critical
+	// subjectAltName only
+	w.Certs[0].EmptyName = t.Bool(10)
 	if t.Bool(6) {
 		sc.RootsNil = true
 		// ... on a host whose system store happens to trust the authority's root
@@ -732,6 +735,9 @@ func runC15(t *Tape, st *Stats, tier string) *RunResult {
 		} else {
 			st.Probes["c15_prior_sign_failed"]++
 		}
+	}
+	if w.Certs[0].EmptyName && len(w.Certs) > 1 {
+		st.Probes["c15_tsa_leaf_with_empty_subject"]++
 	}
 	st.Behav["tsa_"+tsaBehaviourNames[sc.Behaviour]]++
 	st.Behav["tsa_chain_"+tsaDefectNames[w.TSADefect]]++
